@@ -10,7 +10,16 @@ the route and then
   * runs a battery of follow-up operations (source strings, evaluated with q = object under test,
     o = original) on the original and on the restored object in both orders, each order in a fresh
     world with cleared memo tables; every outcome (value+dtype+unit, or exception class) must equal
-    the outcome the untouched original gives in a fresh world.
+    the outcome the untouched original gives in a fresh world, and
+  * (when the restored object has a registry object of its own) runs the result-registry battery in
+    a further fresh world: unit-returning unary/binary operations whose operands all belong to the
+    registry of the object under test, on original and restored in both orders with WARM memo tables
+    and the two registries' contents still equal; the result must be bound to the registry of the
+    object it was computed from exactly as the original's results are bound to the original's
+    (`res.units.registry is q.units.registry`) -> C11[<route>:[history.]result-registry.<rule family>];
+    afterwards a fresh symbol is added to the object's own registry and every result kept from above
+    must convert to it as the original's results do -> C11[<route>:[history.]result-follows-registry.*]
+    (reported only where the registry identity check did not already fail for the same operation).
 The oracle is the statement itself: "same outcome as on the original".  Keys name the defect site:
 C11[<route>:<check or operation group>], one key per site, first witness kept.
 """
@@ -893,12 +902,17 @@ def main():
             "copy.copy, copy.deepcopy, arr.copy, np.copy, Unit.copy(deep=False/True), str/repr re-parse, "
             "savetxt->loadtxt (single and multi-column), UnitRegistry.to_json/from_json); each case = structural "
             "comparison + ~150 follow-up operations on original and restored in both orders with cleared memo "
-            "tables; non-trivial = anything but a float quantity of a plain default-registry unit",
+            "tables + (restored registry is an object of its own) ~35 unit-returning operations in both orders with "
+            "warm memo tables: registry the result is bound to, and conversion of the result to a symbol added to "
+            "the own registry afterwards; non-trivial = anything but a float quantity of a plain default-registry unit",
             "quick (~1600 cases): 36 pinned witnesses of every behaviour class (16 of them through all 21 routes, "
             "pickle protocols 0-5 on 5), every atomic table symbol through 2 seeded routes, 70 prefixed/compound/"
-            "random-compound units, 4 other registries (custom: 27 units); thorough (~8700 cases): every atomic "
+            "random-compound units, 5 other registries (custom: 27 units; 'added' = user symbols only, restored with "
+            "equal contents by every route); thorough (~8900 cases): every atomic "
             "symbol as quantity and Unit through every route, all listed units of every registry through every route; "
-            "savetxt routes only for the default registry (a text file carries no registry; temp files under /tmp)")
+            "savetxt routes only for the default registry (a text file carries no registry; temp files under /tmp); "
+            "the registry-changing follow-up of the result-registry battery runs for every case of the small "
+            "registries and, in quick, for the 16 core witnesses (float quantity and Unit) of the default registry")
     t0 = time.time()
     tasks = make_tasks(R)
     run_all(R, tasks, t0)
@@ -1070,8 +1084,8 @@ def run_all(R, tasks, t0):
     for n in sorted(notes)[:40]:
         R.notes.append(n)
     R.samples = [dict(variant=t["variant"], subject=t["subject"].strip(), route=t["route"]) for t in tasks[:3]]
-    R.notes.append("tasks=%d, operations per battery ~%d, enumeration wall %.1fs" % (
-        len(tasks), len(Q_OPS) + len(U_OPS), time.time() - t0))
+    R.notes.append("tasks=%d, operations per battery ~%d (+%d result-registry operations), enumeration wall %.1fs" % (
+        len(tasks), len(Q_OPS) + len(U_OPS), len(BIND_Q) + len(BIND_U), time.time() - t0))
     R.finish()
 
 
